@@ -4,6 +4,7 @@ package kaisim
 // cache.Cache seam), judged against the API state captured at the start of the cycle.
 
 import (
+	"os"
 	"fmt"
 	"math"
 	"sort"
@@ -216,12 +217,19 @@ func (VictimOracle) AfterCycle(r *Run, cycle int, all []Decision) {
 	for n, p := range pre.Pods {
 		active[n] = p.Active
 	}
+	nominatedNow := map[string]bool{}
 	for _, d := range ds {
 		switch d.Kind {
 		case "bind":
 			active[d.Pod] = true
+			delete(nominatedNow, d.Pod)
+		case "pipeline":
+			if !active[d.Pod] {
+				nominatedNow[d.Pod] = true
+			}
 		case "evict":
 			active[d.Pod] = false
+			delete(nominatedNow, d.Pod)
 		}
 	}
 	for _, d := range ds {
@@ -289,11 +297,13 @@ func (VictimOracle) AfterCycle(r *Run, cycle int, all []Decision) {
 			if mr > 0 && g.LastStart != nil && pre.Now.Sub(*g.LastStart) < mr {
 				// inside the protection period: only an elastic shrink down to the minimum is allowed
 				set := g.Sets[p.SubGroup]
-				after, deleting := 0, 0
+				after, deleting, nominated := 0, 0, 0
 				if set != nil {
 					for _, sp := range set.Pods {
 						if active[sp.Name] {
 							after++
+						} else if nominatedNow[sp.Name] {
+							nominated++
 						}
 						if sp.Deleting && !podTerminated(sp.Pod) {
 							deleting++
@@ -304,6 +314,9 @@ func (VictimOracle) AfterCycle(r *Run, cycle int, all []Decision) {
 					rule := "min_runtime"
 					if set != nil && deleting > 0 && after+deleting >= int(set.Min) {
 						rule = "min_runtime_counting_terminating"
+					} else if set != nil && nominated > 0 && after+nominated+deleting >= int(set.Min) {
+						// pods that were only nominated in this cycle (waiting for terminating capacity) are counted as running
+						rule = "min_runtime_counting_nominated"
 					}
 					r.Fail("C06", rule, "cycle %d: %s evicted %s of workload %s started %s ago, inside its queue's min-runtime %s, leaving its pod set with %d < min active pods",
 						cycle, d.EvictAction, d.Pod, g.Name, pre.Now.Sub(*g.LastStart), mr, after)
@@ -606,14 +619,53 @@ type LivelockOracle struct {
 	total     int
 	other     int   // evictions of pods that were NOT bound earlier in the same cycle
 	others    []int // cumulative, per round
+	ds        []Decision
+	dsAt      []int // len(ds) after round i
+	prevNom   map[string]string // pod -> node it was nominated on by reclaim/preempt in the previous cycle
+	slotLost  map[string]bool   // nominated pods that the following cycle could not bind for lack of pod slots only
 }
 
 func (o *LivelockOracle) Prop() string { return "C15" }
 
 func (o *LivelockOracle) AfterCycle(r *Run, cycle int, all []Decision) {
 	boundNow := map[string]bool{}
+	o.ds = append(o.ds, okDecisions(all)...)
+	if o.slotLost == nil {
+		o.slotLost = map[string]bool{}
+	}
+	{
+		boundThis := map[string]bool{}
+		for _, d := range okDecisions(all) {
+			if d.Kind == "bind" {
+				boundThis[d.Pod] = true
+			}
+		}
+		occ := Occupancy(r.API)
+		for pod, node := range o.prevNom {
+			o2, p := occ[node], r.API.Pod(NS, pod)
+			if boundThis[pod] || o2 == nil || p == nil {
+				continue
+			}
+			dm := PodDemand(p)
+			al := o2.Node.Status.Allocatable
+			gpus := int64(0)
+			if q, ok := al[GPUResource]; ok {
+				gpus = q.Value()
+			}
+			if !dm.Shared && al.Cpu().MilliValue()-o2.CPUm >= dm.CPUm && al.Memory().Value()-o2.MemB >= dm.MemB &&
+				gpus-o2.GPUs-int64(len(o2.Groups)) >= dm.GPUs && al.Pods().Value()-o2.Pods < 1 {
+				o.slotLost[pod] = true
+			}
+		}
+		o.prevNom = map[string]string{}
+		for _, d := range okDecisions(all) {
+			if d.Kind == "pipeline" && (d.Action == "reclaim" || d.Action == "preempt") {
+				o.prevNom[d.Pod] = d.Node
+			}
+		}
+	}
 	for _, d := range okDecisions(all) {
-		if d.Kind == "bind" {
+		if d.Kind == "bind" || d.Kind == "pipeline" { // placed (bound or merely nominated) earlier in this very cycle
 			boundNow[d.Pod] = true
 		}
 		if d.Kind == "evict" {
@@ -656,11 +708,75 @@ func (o *LivelockOracle) AfterOp(r *Run, op Op) {
 	state := strings.Join(parts, "|")
 	o.evictions = append(o.evictions, o.total)
 	o.others = append(o.others, o.other)
+	o.dsAt = append(o.dsAt, len(o.ds))
 	if prev, ok := o.seen[hashStrings([]string{state})]; ok {
 		if ev := o.total - o.evictions[prev]; ev > 0 {
 			rule := "lasso"
 			if o.other-o.others[prev] == 0 {
 				rule = "lasso_moves_or_same_cycle_binds"
+				if os.Getenv("KAISIM_C15_TAG") != "" {
+					acts := map[string]bool{}
+					for _, d := range o.ds[o.dsAt[prev]:] {
+						if d.Kind == "evict" {
+							acts[d.EvictAction] = true
+						}
+					}
+					rule += "_" + strings.Join(sortedKeys(acts), "+") + fmt.Sprintf("_cr%v", r.S.Config.ConsolidatingReclaim)
+				}
+			} else {
+				// signature: a pod is nominated by reclaim/preempt, never gets bound, and the allocate action of a later
+				// cycle binds pods of the very workloads that were evicted for it (the freed capacity goes back)
+				win := o.ds[o.dsAt[prev]:]
+				nominated, bound, victimGroups, regained, regainedWhole := map[string]bool{}, map[string]bool{}, map[string]bool{}, false, false
+				for _, d := range win { // the window is one period of a cycle: order inside it does not matter
+					if d.Kind == "evict" && (d.EvictAction == "reclaim" || d.EvictAction == "preempt") {
+						victimGroups[d.Group] = true
+					}
+				}
+				for _, d := range win {
+					switch {
+					case d.Kind == "pipeline" && (d.Action == "reclaim" || d.Action == "preempt"):
+						nominated[d.Pod] = true
+					case d.Kind == "bind":
+						bound[d.Pod] = true
+						if d.Action == "allocate" && victimGroups[d.Group] {
+							regained = true
+							if len(d.GPUGroups) == 0 {
+								regainedWhole = true
+							}
+						}
+					}
+				}
+				// ... and what keeps the nominated pod off its node afterwards is the node's pod-slot count alone (the slot
+				// of a GPU reservation pod is not accounted for, see C01 podslots_reservation): cpu, memory and GPUs fit
+				lostToSlots := false
+				for pod := range nominated {
+					if !bound[pod] && o.slotLost[pod] {
+						lostToSlots = true
+					}
+				}
+				lost := false
+				for pod := range nominated {
+					if !bound[pod] {
+						lost = true
+					}
+				}
+				_ = lostToSlots
+				onlyPreempt := true
+				for _, d := range win {
+					if d.Kind == "evict" && d.EvictAction != "preempt" && d.EvictAction != "consolidation" {
+						onlyPreempt = false
+					}
+				}
+				if lost && regained && onlyPreempt {
+					// preempt inside one queue: allocate cannot place the high-priority workload without victims, places the
+					// recreated lower-priority workloads instead, and preempt evicts them again for a nomination that is not kept
+					rule = "lasso_nomination_lost_preempt_same_queue"
+				} else if lost && regained && !regainedWhole {
+					// every pod of the evicted workloads that allocate binds again is a fractional / gpu-memory pod opening
+					// GPU groups (and their reservation pods) on the node the reclaimer was nominated on
+					rule = "lasso_nomination_lost_to_fractional_victims"
+				}
 			}
 			r.Fail("C15", rule, "closed system: the cluster state after round %d equals the state after round %d although %d evictions happened in between (eviction livelock)", o.round, prev, ev)
 		}
